@@ -80,8 +80,28 @@ func (p *Persister) Serialize() ([]byte, error) {
 
 // Deserialize decodes the state and cache from storage, and applies them to the persister.
 func (p *Persister) Deserialize(b []byte) error {
-	err := cbor.Unmarshal(b, p)
-	return err
+	// decode into new objects: cbor.Unmarshal into existing ones merges maps and
+	// reuses the frames left in the backing array of Cache.Cache
+	np := &Persister{}
+	err := cbor.Unmarshal(b, np)
+	if err != nil {
+		return err
+	}
+	if np.State != nil {
+		if p.State == nil {
+			p.State = np.State
+		} else {
+			*p.State = *np.State
+		}
+	}
+	if np.Memory != nil {
+		if p.Memory == nil {
+			p.Memory = np.Memory
+		} else {
+			*p.Memory = *np.Memory
+		}
+	}
+	return nil
 }
 
 // Save persists the state and cache to the db.Db backend.
@@ -105,8 +125,7 @@ func (p *Persister) Save(key string) error {
 	}
 	if p.flush {
 		logg.Tracef("state and cache flushed from persister")
-		p.Memory.Reset()
-		p.Memory.Pop()
+		p.Memory = cache.NewCache().WithCacheSize(p.Memory.CacheSize)
 		p.State = p.State.CloneEmpty()
 	}
 	return nil
